@@ -1,3 +1,5 @@
+//go:build !skip_c04
+
 package main
 
 // C04 — renewal decision. Drives the real certNeedsRenewal / Certificate.NeedsRenewal /
